@@ -110,7 +110,9 @@ func streamOrder(c *ctx) {
 	}
 	for _, z := range zones {
 		for _, start := range []time.Time{time.Date(1969, 12, 20, 0, 0, 0, 0, time.UTC), time.Date(1, 1, 2, 0, 0, 0, 0, time.UTC),
-			time.Date(1999, 12, 20, 0, 0, 0, 0, time.UTC), time.Date(9999, 12, 1, 0, 0, 0, 0, time.UTC), time.Date(2024, 2, 20, 0, 0, 0, 0, time.UTC)} {
+			time.Date(1999, 12, 20, 0, 0, 0, 0, time.UTC), time.Date(9999, 12, 1, 0, 0, 0, 0, time.UTC), time.Date(2024, 2, 20, 0, 0, 0, 0, time.UTC),
+			// the weeks in which the zones above change their offset (London, Santiago: both directions)
+			time.Date(2024, 3, 20, 0, 0, 0, 0, time.UTC), time.Date(2024, 8, 28, 0, 0, 0, 0, time.UTC), time.Date(2024, 10, 15, 0, 0, 0, 0, time.UTC)} {
 			t := start
 			for i := 0; i < 24; i++ {
 				n := t.AddDate(0, 0, 1)
